@@ -5,7 +5,7 @@ cd /verif
 trial() { # seed prop harnesses
   echo "=== $1 ($2: $3)"; ./lib/try_seed.sh /verif/seeded/$1 $2 --only $3 --no-replay 2>&1 | grep -a "^  \[\|FAILED-UNREPLAYED\|try_seed\|patch does not"
 }
-ALL="C01a C02a C02b C03a C03b C05a C06a C07a C08a C08b C10a C11a C12a C12b C15a C15b C16a"
+ALL="C01a C02a C02b C03a C03b C05a C06a C07a C08a C08b C10a C10b C11a C12a C12b C15a C15b C16a C06b C11b C16b C07b C05c C02c C03c C12c R-C16fix R-C12fix R-C02fix R-C08fix1 R-C08fix2 R-C11fix R-C07fix"
 [ $# -gt 0 ] && ALL="$*"
 for s in $ALL; do
 case $s in
@@ -26,5 +26,21 @@ case $s in
  C15a) trial C15a C15 meta_hash_covers_canonical;;
  C15b) trial C15b C15 page_layout_offsets,page_leaf_decode_ref;;
  C16a) trial C16a C16 tx_commit_growth_two_steps;;
+ C10b) trial C10b C10 db_open_reloads_long_freelist;;
+ C06b) trial C06b C06 tx_ro_listing_handles_are_readonly;;
+ C11b) trial C11b C11 tx_commit_growth_then_fault_map_covers_file;;
+ C16b) trial C16b C16 txfl_allocate_step;;
+ C07b) trial C07b C07 cursor_seek_into_emptied_leaf_node;;
+ C05c) trial C05c C05 txfl_allocate_step;;
+ C02c) trial C02c C02 tx_commit_power_loss;;
+ C03c) trial C03c C03 tx_drop_oldest_reader_keeps_order;;
+ C12c) trial C12c C12 db_meta_damage_newer1_rec;;
+ R-C16fix) trial R-C16fix C16 db_page_view_aligned_for_accepted_sizes;;
+ R-C12fix) trial R-C12fix C12 db_meta_damage_type_byte_slot1;;
+ R-C02fix) trial R-C02fix C02 tx_commit_power_loss;;
+ R-C08fix1) trial R-C08fix1 C08 cursor_empty_bucket_next_again;;
+ R-C08fix2) trial R-C08fix2 C08 range_excluded_included;;
+ R-C11fix) trial R-C11fix C11 tx_commit_fault_10_sync;;
+ R-C07fix) trial R-C07fix C07 cursor_skips_emptied_leaf_node;;
 esac
 done
